@@ -1,3 +1,3 @@
 SPECIFICATION Spec
-INVARIANTS Lossless NeverUnloadable KnownRules Contract
+INVARIANTS Lossless NeverUnloadable Contract
 CHECK_DEADLOCK FALSE
